@@ -417,10 +417,10 @@ def run(pid, tier):
         d11 = "D11" in active or any(f["id"] == "D11" and f["status"] == "known" and pid in f["properties"] for f in load_findings())
 
         # ---- MC + RP over the bounded universe
-        ALLSHAPES = "<<" + ",".join(str(i) for i in range(1, 37)) + ">>"
+        ALLSHAPES = "<<" + ",".join(str(i) for i in range(1, 44)) + ">>"
         # (free relations, shapes of the first one, shapes of the others)
-        universes = [(2, ALLSHAPES, "<<1,3,4,5,6,9,11,13,22,27,36>>")] if tier == "quick" else \
-                    [(2, ALLSHAPES, ALLSHAPES), (3, "<<1,2,4,6,8,9,11,12,13,14,16,17,22,25,26,27,28,30,31,34,35>>", "<<1,4,5,6,9,11,22,27,36>>")]
+        universes = [(2, ALLSHAPES, "<<1,3,4,5,6,9,11,13,22,27,36,39,40>>"), (3, "<<4,21>>", "<<4,21,22,42,43>>")] if tier == "quick" else \
+                    [(2, ALLSHAPES, ALLSHAPES), (3, "<<1,2,4,6,8,9,11,12,13,14,16,17,22,25,26,27,28,30,31,34,35>>", "<<1,4,5,6,9,11,22,27,36,39,40,42,43>>")]
         states = trans = 0
         allmodels = []
         universes.append((0, "<<1>>", "<<1>>"))        # the public-type frame (PubInputs of WGraphMC)
@@ -460,7 +460,7 @@ def run(pid, tier):
             api_automaton(chk, binary, sc, tier)
 
         # ---- TV: random larger models, natural orders logged, replayed through the Impl layer by TLC
-        n = 150 if tier == "quick" else 1500
+        n = 90 if tier == "quick" else 1500
         gen = sc.path("gen.ndjson")
         run_harness(binary, ["wg-gen", "-out", gen, "-n", str(n), "-seed", str(SEED)])
         ms, st, tr, validated, ntr = trace_models(chk, pid, binary, sc, gen, d11, "30" if tier == "quick" else "60", "60" if tier == "quick" else "200")
